@@ -57,8 +57,32 @@ class PrefixReplay(c01.Segmentation):
                         break
                 if fails:
                     break
+        # one LARGE frame (body > 256 bytes: past CPython's small-int cache, where a byte count compared with `is` stops
+        # matching - seeded change C15-r14), cut inside its body
+        if not fails:
+            for enabled, thr in ((False, None), (True, 64)):
+                s = Sink()
+                p = c01._Raw()
+                p.id = 7
+                p.raw = bytes((i * 11) & 0xFF for i in range(900))
+                p.write(s, thr) if enabled else p.write(s)
+                if enabled:
+                    cuts = [3, len(s.data) // 2, len(s.data) - 1]
+                else:
+                    cuts = [2, 200, 258, 259, 300, 700, len(s.data) - 1]
+                for cut in cuts:
+                    for chunk in (1, 100, None):
+                        cnt += 1
+                        bad = self.run_prefix(s.data[:cut], chunk, enabled, [(7, p.raw)])
+                        if bad:
+                            fails.append(dict(call='one frame of 900 payload bytes cut at byte %d (compression=%r, reads<=%r)'
+                                              % (cut, enabled, chunk), observed=bad, witness='prefix-large'))
+                            break
+                    if fails:
+                        break
         return dict(name='C15.prefix-replay', evaluations=cnt, failures=fails[:2],
-                    bound='every prefix of 3 reference streams (5 frames each; plain, compressed thr 64, thr 0) x read chunkings')
+                    bound='every prefix of 3 reference streams (5 frames each; plain, compressed thr 64, thr 0) x read chunkings; '
+                          'a 900-byte frame cut inside its body')
 
     @staticmethod
     def run_prefix(data, chunk, enabled, sent):
